@@ -115,6 +115,42 @@ func coreSuite() []modelSpec {
 		m.addRule("S", m.seq(m.opaqueChild(true, false), m.query(m.name("S"))), 2)
 		return 0
 	}})
+	// every operator directly over a reference to a rule that is referenced once
+	// (emitted in place under -inline) and whose body can fail after its first
+	// element has consumed input and recorded tokens
+	{
+		nm := func(s string) *mexpr { return &mexpr{Op: "name", S: s} }
+		var xs []*mexpr
+		for _, u := range unaryOps {
+			xs = append(xs, me(u, nm("A")))
+		}
+		xs = append(xs, me("alt", nm("A"), me("e")), me("alt", me("e"), nm("A")), me("alt", nm("A"), nm("B"), me("e")), me("alt", nm("A"), nm("B")),
+			me("seq", nm("A"), me("e")), me("seq", me("e"), nm("A")), me("seq", me("query", nm("A")), nm("B")), me("alt", me("seq", nm("A"), me("e")), nm("B")),
+			me("star", me("alt", nm("A"), nm("B"))), me("not", me("alt", nm("A"), me("e"))))
+		for i, x := range xs {
+			x := x
+			uses := map[string]bool{}
+			var walk func(y *mexpr)
+			walk = func(y *mexpr) {
+				if y.Op == "name" {
+					uses[y.S] = true
+				}
+				for _, k := range y.Kids {
+					walk(k)
+				}
+			}
+			walk(x)
+			s = append(s, modelSpec{Op: "TypeName", Name: fmt.Sprintf("single-use rule #%d %s", i, x.String()), Build: func(m *model) int {
+				m.addRule("S", x.build(m), 1)
+				for _, r := range []string{"A", "B"} {
+					if uses[r] {
+						m.addRule(r, m.seq(m.opaqueChild(true, false), m.opaqueChild(true, false)), 1)
+					}
+				}
+				return 0
+			}})
+		}
+	}
 	// two-level compositions (label numbering, labelLast plumbing)
 	add("composition", "Seq[Query, Alt, Star]", func(m *model) *Obj {
 		return m.seq(m.query(m.opaqueChild(true, false)), m.alt(m.opaqueChild(true, false), m.opaqueChild(true, false)), m.star(m.opaqueChild(true, false)))
